@@ -139,7 +139,9 @@ pub struct Index {
 pub fn small_table(e: &syn::Expr) -> bool {
     match e {
         syn::Expr::Reference(r) => small_table(&r.expr),
-        syn::Expr::Array(a) => a.elems.len() <= 16,
+        syn::Expr::Array(a) => a.elems.len() <= 64,
+        // a literal constant (`const RAW_PREFIX: &str = "r#"`): the name stands for the literal wherever it is used
+        syn::Expr::Lit(l) => matches!(l.lit, syn::Lit::Str(_) | syn::Lit::Char(_) | syn::Lit::Bool(_) | syn::Lit::Int(_)),
         _ => false,
     }
 }
